@@ -246,3 +246,8 @@ package linker
 //@   opt auto-counters 1
 //@   prop C16
 
+
+// C12: a file imported under a condition (@import url() layer(x) supports(..) media) contributes its rules WRAPPED in
+// that condition. Cross-file duplicate removal must compare the wrapped rules: an unconditional copy of a rule is
+// not a duplicate of a later copy that only applies under a condition.
+//@ flow dedupe-after-wrapping C12: func=(*linkerContext).generateChunkCSS ; in=linker ; site=call RemoveDeadRulesInPlace ; argpath=2:call wrapRulesWithConditions(*)#0
